@@ -328,6 +328,11 @@ fn check_text(w: &mut W, idx: u64, text: &str, case: &dyn Fn() -> Value) {
         Err(p) => return panic_fail(w, idx, case, p, "pl_to_tfm"),
         Ok(x) => x,
     };
+    // "plus warnings": every warning must be printable the way the pltotf binary prints it
+    // (tfm-bin/src/pltotf.rs: `warning.pltotf_message(&pl_data)`)
+    if let Err(p) = catch(|| warnings.iter().take(200).map(|x| x.pltotf_message(text).len()).sum::<usize>()) {
+        return panic_fail(w, idx, case, p, "rendering a pl_to_tfm warning (ParseWarning::pltotf_message)");
+    }
     if !warnings.is_empty() {
         w.acc.nontrivial();
     }
@@ -345,12 +350,12 @@ fn check_text(w: &mut W, idx: u64, text: &str, case: &dyn Fn() -> Value) {
 // ------------------------------------------------------------------ families: index -> case
 
 const REPL: &[&str] = &[
-    "0", "255", "256", "2047", "2048", "-1", "77777777777", "0.5", "16.0", "-16.0", "2047.9999999", "-2047.9999999", "C", "O", "D", "H", "R", "F", "A", "MRR", "TRUE", "LABEL", "STOP", "SKIP", "BOUNDARYCHAR", "(", ")",
+    "0", "255", "256", "2047", "2048", "-1", "77777777777", "0.5", "16.0", "-16.0", "2047.9999999", "-2047.9999999", "C", "O", "D", "H", "R", "F", "A", "MRR", "TRUE", "LABEL", "STOP", "SKIP", "BOUNDARYCHAR", "(", ")", "é", "1é", "Aé0", "R é", "C é", "\u{2028}",
 ];
 const PROPS: &[&str] = &[
     "CHECKSUM", "DESIGNSIZE", "DESIGNUNITS", "CODINGSCHEME", "FAMILY", "FACE", "SEVENBITSAFEFLAG", "HEADER", "FONTDIMEN", "LIGTABLE", "BOUNDARYCHAR", "CHARACTER", "COMMENT", "SLANT", "SPACE", "STRETCH", "SHRINK", "XHEIGHT", "QUAD", "EXTRASPACE", "NUM1", "NUM3", "DENOM2", "SUP3", "SUB2", "SUPDROP", "DELIM2", "AXISHEIGHT", "DEFAULTRULETHICKNESS", "BIGOPSPACING5", "PARAMETER", "LABEL", "STOP", "SKIP", "KRN", "LIG", "/LIG", "/LIG>", "LIG/", "LIG/>", "/LIG/", "/LIG/>", "/LIG/>>", "CHARWD", "CHARHT", "CHARDP", "CHARIC", "NEXTLARGER", "VARCHAR", "TOP", "MID", "BOT", "REP",
 ];
-const N_FIXED: u64 = 5; // delete, duplicate, truncate before, insert "(", insert ")"
+const N_FIXED: u64 = 7; // delete, duplicate, truncate before, insert "(", insert ")", non-ASCII character appended / prepended
 const N_FILE: u64 = 4; // character codes one below the first / one above the last CHARACTER (octal, decimal)
 fn menu_len() -> u64 {
     N_FIXED + REPL.len() as u64 + N_FILE + PROPS.len() as u64
@@ -434,7 +439,9 @@ impl TextFamily {
                 1 => ("duplicated".to_string(), format!("{}{} {}", &t[..e], if tok == "(" || tok == ")" { "" } else { " " }, &t[s..])),
                 2 => ("file truncated before it".to_string(), t[..s].to_string()),
                 3 => ("`(` inserted before it".to_string(), format!("{}( {}", &t[..s], &t[s..])),
-                _ => ("`)` inserted before it".to_string(), format!("{}) {}", &t[..s], &t[s..])),
+                4 => ("`)` inserted before it".to_string(), format!("{}) {}", &t[..s], &t[s..])),
+                5 => ("non-ASCII `é` appended to it".to_string(), format!("{}é{}", &t[..e], &t[e..])),
+                _ => ("non-ASCII `ü` put in front of it".to_string(), format!("{}ü{}", &t[..s], &t[s..])),
             }
         } else if item < N_FIXED + REPL.len() as u64 {
             let x = REPL[(item - N_FIXED) as usize];
@@ -472,8 +479,8 @@ impl TextFamily {
 }
 
 /// Lattices for the template family.
-const FIX: &[&str] = &["0", "1", "-1", "0.000001", "15.999999", "16", "-16", "-16.000001", "1023.5", "2047.999999", "2048", "-2047.999999", "-2048", "99999999999", "1.0E5", ""];
-const CODES: &[&str] = &["C A", "C B", "O 0", "O 377", "O 400", "D 65", "D 256", "H 41", "H FF", "H 100", "F MRR", "C", "D -1"];
+const FIX: &[&str] = &["1é", "0", "1", "-1", "0.000001", "15.999999", "16", "-16", "-16.000001", "1023.5", "2047.999999", "2048", "-2047.999999", "-2048", "99999999999", "1.0E5", ""];
+const CODES: &[&str] = &["C é", "C A", "C B", "O 0", "O 377", "O 400", "D 65", "D 256", "H 41", "H FF", "H 100", "F MRR", "C", "D -1"];
 const INTS: &[&str] = &["0", "1", "17", "18", "19", "254", "255", "256", "257", "32767", "32768", "65535", "65536", "2147483647", "2147483648", "4294967295", "4294967296", "-1"];
 
 /// (template, hole kinds) – `#` is a hole; kinds: f = FIX, c = CODES, i = INTS
@@ -498,6 +505,8 @@ const TEMPLATES: &[(&str, &str)] = &[
     ("(CHARACTER # (CHARWD R 1.0) (VARCHAR (TOP #) (REP #)))", "ccc"),
     ("(CHARACTER C M (CHARWD R 1.0))(LIGTABLE (LABEL #)(LABEL #) (KRN # R #))", "cccf"),
     ("(FACE O #)(FACE F #)(SEVENBITSAFEFLAG #)", "icc"),
+    ("(FACE D #)(FACE H #)", "ii"),
+    ("(CODINGSCHEME #)(FAMILY #)(COMMENT #)", "ccc"),
     // more than 15 distinct heights / depths, more than 63 italics: the lossy table compression runs
     ("(CHARACTER C a (CHARHT R 0.1))(CHARACTER C b (CHARHT R 0.2))(CHARACTER C c (CHARHT R 0.3))(CHARACTER C d (CHARHT R 0.4))(CHARACTER C e (CHARHT R 0.5))(CHARACTER C f (CHARHT R 0.6))(CHARACTER C g (CHARHT R 0.7))(CHARACTER C h (CHARHT R 0.8))(CHARACTER C i (CHARHT R 0.9))(CHARACTER C j (CHARHT R 1.1))(CHARACTER C k (CHARHT R 1.2))(CHARACTER C l (CHARHT R 1.3))(CHARACTER C m (CHARHT R 1.4))(CHARACTER C n (CHARHT R 1.5))(CHARACTER C o (CHARHT R 1.6))(CHARACTER C p (CHARHT R #))(CHARACTER C q (CHARHT R #))(CHARACTER C r (CHARHT R #))", "fff"),
     ("(CHARACTER C a (CHARDP R 0.1))(CHARACTER C b (CHARDP R 0.2))(CHARACTER C c (CHARDP R 0.3))(CHARACTER C d (CHARDP R 0.4))(CHARACTER C e (CHARDP R 0.5))(CHARACTER C f (CHARDP R 0.6))(CHARACTER C g (CHARDP R 0.7))(CHARACTER C h (CHARDP R 0.8))(CHARACTER C i (CHARDP R 0.9))(CHARACTER C j (CHARDP R 1.1))(CHARACTER C k (CHARDP R 1.2))(CHARACTER C l (CHARDP R 1.3))(CHARACTER C m (CHARDP R 1.4))(CHARACTER C n (CHARDP R -1.5))(CHARACTER C o (CHARDP R -1.6))(CHARACTER C p (CHARDP R #))(CHARACTER C q (CHARDP R #))", "ff"),
@@ -569,8 +578,232 @@ fn many_entrypoints_cases() -> Vec<(String, String)> {
     out
 }
 
+
+// ------------------------------------------------------------------ size-limit families
+
+/// A size-consistent TFM with the given table lengths (None if lf would not fit in 15 bits).
+/// `maxidx`: characters point at the last entry of every table instead of the first useful one.
+#[derive(Clone, Copy, Debug)]
+struct Spec {
+    lh: usize,
+    bc: usize,
+    ec: usize,
+    nw: usize,
+    nh: usize,
+    nd: usize,
+    ni: usize,
+    nl: usize,
+    nk: usize,
+    ne: usize,
+    np: usize,
+}
+const BASE_SPEC: Spec = Spec { lh: 18, bc: 65, ec: 70, nw: 3, nh: 2, nd: 2, ni: 2, nl: 4, nk: 2, ne: 2, np: 7 };
+
+fn limit_tfm(s: &Spec, maxidx: bool) -> Option<Vec<u8>> {
+    let nc = if s.bc <= s.ec { s.ec + 1 - s.bc } else { 0 };
+    let lf = 6 + s.lh + nc + s.nw + s.nh + s.nd + s.ni + s.nl + s.nk + s.ne + s.np;
+    if lf > 32767 {
+        return None;
+    }
+    let mut out: Vec<u8> = vec![];
+    for v in [lf, s.lh, s.bc, s.ec, s.nw, s.nh, s.nd, s.ni, s.nl, s.nk, s.ne, s.np] {
+        out.extend((v as u16).to_be_bytes());
+    }
+    // header: checksum, design size 10, TEST, ABC, face 0, then arbitrary extra words
+    let mut hb = vec![0u8; 72];
+    hb[0..4].copy_from_slice(&[0x12, 0x34, 0x56, 0x78]);
+    hb[4..8].copy_from_slice(&(10i32 << 20).to_be_bytes());
+    hb[8] = 4;
+    hb[9..13].copy_from_slice(b"TEST");
+    hb[48] = 3;
+    hb[49..52].copy_from_slice(b"ABC");
+    for i in 18..s.lh {
+        hb.extend(((i as u32).wrapping_mul(2654435761)).to_be_bytes());
+    }
+    hb.truncate(4 * s.lh);
+    out.extend(&hb);
+    for c in s.bc..s.bc + nc {
+        let pick = |n: usize, cap: usize| -> u8 { (if maxidx { n.saturating_sub(1) } else { 1.min(n.saturating_sub(1)) }).min(cap) as u8 };
+        let (mut tag, mut rem) = (0u8, 0u8);
+        match c % 4 {
+            1 if s.nl > 0 => {
+                tag = 1;
+                rem = pick(s.nl, 255);
+            }
+            2 if c < s.ec => {
+                tag = 2;
+                rem = (c + 1) as u8;
+            }
+            3 if s.ne > 0 => {
+                tag = 3;
+                rem = pick(s.ne, 255);
+            }
+            _ => {}
+        }
+        out.extend([pick(s.nw, 255), (pick(s.nh, 15) << 4) | pick(s.nd, 15), (pick(s.ni, 63) << 2) | tag, rem]);
+    }
+    for n in [s.nw, s.nh, s.nd, s.ni] {
+        for i in 0..n {
+            out.extend(((i as i32) << 8).to_be_bytes());
+        }
+    }
+    for i in 0..s.nl {
+        let stop = i % 50 == 49 || i + 1 == s.nl;
+        let next = (s.bc.min(255) + i % nc.max(1)) as u8;
+        if s.nk > 0 && i % 3 != 2 {
+            let k = if maxidx { s.nk - 1 } else { i % s.nk };
+            out.extend([if stop { 128 } else { 0 }, next, 128 + (k >> 8) as u8, k as u8]);
+        } else {
+            out.extend([if stop { 128 } else { 0 }, next, (i % 12) as u8, s.bc.min(255) as u8]);
+        }
+    }
+    for i in 0..s.nk {
+        out.extend(((i as i32 % 4096) << 6).to_be_bytes());
+    }
+    for i in 0..s.ne {
+        out.extend([0, if i % 2 == 0 { 0 } else { s.bc.min(255) as u8 }, 0, s.bc.min(255) as u8]);
+    }
+    for i in 0..s.np {
+        out.extend(((i as i32 % 4096) << 10).to_be_bytes());
+    }
+    Some(out)
+}
+
+fn limit_tfm_cases() -> Vec<(String, Vec<u8>)> {
+    let mut specs: Vec<(String, Spec)> = vec![("base".into(), BASE_SPEC)];
+    macro_rules! vary {
+        ($f:ident, $vals:expr) => {
+            for v in $vals {
+                let mut s = BASE_SPEC;
+                s.$f = v;
+                specs.push((format!("{} = {}", stringify!($f), v), s));
+            }
+        };
+    }
+    vary!(lh, [2usize, 3, 11, 12, 16, 17, 19, 20, 271, 272, 273, 274, 275, 300, 1000, 32000]);
+    vary!(nw, [1usize, 2, 255, 256, 257, 1000, 32000]);
+    vary!(nh, [1usize, 15, 16, 17, 256, 32000]);
+    vary!(nd, [1usize, 15, 16, 17, 256, 32000]);
+    vary!(ni, [1usize, 63, 64, 65, 256, 32000]);
+    vary!(nl, [0usize, 1, 255, 256, 257, 32509, 32510, 32511, 32700]);
+    vary!(nk, [0usize, 1, 255, 256, 257, 32000, 32700]);
+    vary!(ne, [0usize, 1, 254, 255, 256, 257]);
+    vary!(np, [0usize, 1, 6, 8, 13, 22, 253, 254, 255, 256, 257, 1000, 32000]);
+    for (bc, ec) in [(0usize, 255usize), (0, 0), (255, 255), (1, 0), (0, 127), (128, 255), (256, 255)] {
+        let mut s = BASE_SPEC;
+        s.bc = bc;
+        s.ec = ec;
+        specs.push((format!("bc..ec = {bc}..{ec}"), s));
+        // every table at the largest size its index field can address, all 256 characters
+        if bc == 0 && ec == 255 {
+            let big = Spec { lh: 18, bc, ec, nw: 256, nh: 16, nd: 16, ni: 64, nl: 256, nk: 256, ne: 256, np: 254 };
+            specs.push(("every table at the maximum its index can address, 256 characters".into(), big));
+            let mut b2 = big;
+            b2.lh = 274;
+            specs.push(("the same with lh = 274".into(), b2));
+        }
+    }
+    let mut out = vec![];
+    for (name, sp) in specs {
+        for maxidx in [false, true] {
+            if let Some(b) = limit_tfm(&sp, maxidx) {
+                out.push((format!("size-consistent synthetic font, {name}{}", if maxidx { ", characters pointing at the last entry of every table" } else { "" }), b));
+            }
+        }
+    }
+    out
+}
+
+/// Synthetic fonts with a full header whose every byte is swept (independent of the corpus).
+fn header_sweep_bases() -> Vec<(String, Vec<u8>)> {
+    let mut a = BASE_SPEC;
+    a.lh = 18;
+    let mut b = BASE_SPEC;
+    b.lh = 20;
+    vec![("synthetic lh=18".into(), limit_tfm(&a, false).unwrap()), ("synthetic lh=20".into(), limit_tfm(&b, true).unwrap())]
+}
+
+fn limit_pl_cases() -> Vec<(String, String)> {
+    use std::fmt::Write as _;
+    let mut out = vec![];
+    // LIGTABLE lengths around PLtoTF's limit (32767 - 257 = 32510 instructions)
+    for n in [32509usize, 32510, 32511, 40000, 70000] {
+        for label_at_end in [false, true] {
+            let mut s = String::with_capacity(n * 20);
+            s.push_str("(CHARACTER C A (CHARWD R 1.0))(CHARACTER C B (CHARWD R 1.0))\n(LIGTABLE (LABEL C A)\n");
+            for i in 0..n {
+                if i % 3 == 0 {
+                    let _ = writeln!(s, "(KRN O {:o} R 0.{})", i % 256, i % 9);
+                } else {
+                    let _ = writeln!(s, "(LIG O {:o} C B)", i % 256);
+                }
+            }
+            if label_at_end {
+                s.push_str("(LABEL C B)(KRN C A R 0.5)(STOP)");
+            }
+            s.push_str(")\n");
+            out.push((format!("LIGTABLE of {n} instructions{}", if label_at_end { " and one more labelled chain after them" } else { "" }), s));
+        }
+    }
+    // numbers of VARCHAR characters, parameters, header words, distinct dimensions, distinct kerns
+    for n in [254usize, 255, 256] {
+        let mut s = String::new();
+        for c in 0..n {
+            let _ = writeln!(s, "(CHARACTER O {:o} (CHARWD R 1.0) (VARCHAR (TOP O {:o}) (REP O {:o})))", c, (c + 1) % n, c);
+        }
+        out.push((format!("{n} characters with a VARCHAR each"), s));
+        let mut s = String::new();
+        for c in 0..n {
+            let _ = writeln!(s, "(CHARACTER O {:o} (CHARWD R 1.{:03}) (CHARHT R 0.{:03}) (CHARDP R 0.{:03}) (CHARIC R 0.{:03}) (NEXTLARGER O {:o}))", c, c, c + 1, 300 + c, 600 + c, (c + 1) % 256);
+        }
+        out.push((format!("{n} characters with {n} distinct widths, heights, depths and italic corrections in one NEXTLARGER chain"), s));
+    }
+    for n in [253usize, 254, 255, 256, 1000] {
+        let mut s = String::from("(FONTDIMEN\n");
+        for i in 1..=n {
+            let _ = writeln!(s, "(PARAMETER D {i} R 0.{:03})", i % 1000);
+        }
+        s.push_str(")\n(CHARACTER C A (CHARWD R 1.0))");
+        out.push((format!("{n} font parameters"), s));
+    }
+    for codingscheme in ["TEX MATH SYMBOLS", "TEX MATH EXTENSION"] {
+        for n in [21usize, 22, 23, 12, 13, 14] {
+            let mut s = format!("(CODINGSCHEME {codingscheme})\n(FONTDIMEN\n");
+            for i in 1..=n {
+                let _ = writeln!(s, "(PARAMETER D {i} R 0.5)");
+            }
+            s.push_str(")\n");
+            out.push((format!("{codingscheme} with {n} parameters"), s));
+        }
+    }
+    for last in [254usize, 255, 256, 300] {
+        let mut s = String::new();
+        for i in 18..=last {
+            let _ = writeln!(s, "(HEADER D {i} O {:o})", (i as u32).wrapping_mul(2654435761));
+        }
+        s.push_str("(CHARACTER C A (CHARWD R 1.0))");
+        out.push((format!("HEADER D 18 .. HEADER D {last}"), s));
+    }
+    for n in [255usize, 256, 257, 5000, 32510] {
+        let mut s = String::from("(CHARACTER C A (CHARWD R 1.0))\n(LIGTABLE (LABEL C A)\n");
+        for i in 0..n {
+            let _ = writeln!(s, "(KRN O {:o} R {}.{:04})", i % 256, i / 10000, i % 10000);
+        }
+        s.push_str("(STOP))\n");
+        out.push((format!("{n} kern instructions with {n} distinct amounts"), s));
+    }
+    for (c, name) in [("CODINGSCHEME", 39usize), ("CODINGSCHEME", 40), ("CODINGSCHEME", 41), ("CODINGSCHEME", 300), ("FAMILY", 19), ("FAMILY", 20), ("FAMILY", 21), ("FAMILY", 300)] {
+        out.push((format!("{c} of {name} characters"), format!("({c} {})", "X".repeat(name))));
+    }
+    // every face code, in octal
+    for v in 0..=256u32 {
+        out.push((format!("FACE O {v:o}"), format!("(FACE O {v:o})(CHARACTER C A (CHARWD R 1.0))")));
+    }
+    out
+}
+
 const VOCAB: &[&str] = &[
-    "(", ")", "CHARACTER", "C", "A", "LIGTABLE", "LABEL", "LIG", "KRN", "STOP", "SKIP", "D", "R", "1", "256", "-1", "BOUNDARYCHAR", "NEXTLARGER", "VARCHAR", "REP", "CHARWD", "DESIGNSIZE", "CHECKSUM", "HEADER", "FONTDIMEN", "PARAMETER", "O",
+    "(", ")", "CHARACTER", "C", "A", "LIGTABLE", "LABEL", "LIG", "KRN", "STOP", "SKIP", "D", "R", "1", "256", "-1", "BOUNDARYCHAR", "NEXTLARGER", "VARCHAR", "REP", "CHARWD", "DESIGNSIZE", "CHECKSUM", "HEADER", "FONTDIMEN", "PARAMETER", "O", "é",
 ];
 
 fn nesting_cases(thorough: bool) -> Vec<(String, String)> {
@@ -612,6 +845,9 @@ struct Families {
     text: TextFamily,
     nesting: Vec<(String, String)>,
     many: Vec<(String, String)>,
+    limit_tfms_cell: std::sync::OnceLock<Vec<(String, Vec<u8>)>>,
+    limit_pls_cell: std::sync::OnceLock<Vec<(String, String)>>,
+    hdr_sweep: Vec<(String, Vec<u8>)>,
     vocab_len: u32,
 }
 
@@ -627,6 +863,13 @@ fn region_len(b: &[u8]) -> usize {
 }
 
 impl Families {
+    /// the large generated lists are only built by the processes that need them
+    fn limit_tfms(&self) -> &Vec<(String, Vec<u8>)> {
+        self.limit_tfms_cell.get_or_init(limit_tfm_cases)
+    }
+    fn limit_pls(&self) -> &Vec<(String, String)> {
+        self.limit_pls_cell.get_or_init(limit_pl_cases)
+    }
     fn new(d: &Data) -> Families {
         let find = |n: &str| d.tfms.iter().find(|x| x.0 == n).cloned();
         let mut hdr_bases: Vec<(String, Vec<u8>)> = vec![];
@@ -661,7 +904,7 @@ impl Families {
             mut_starts.push(mut_starts.last().unwrap() + r as u64 * 256);
         }
         let pair_bases: Vec<(String, Vec<u8>)> = d.synth.iter().filter(|x| x.0.contains("min")).take(if d.thorough { 2 } else { 1 }).cloned().collect();
-        Families { hdr_bases, trunc_starts, mut_files, mut_starts, pair_bases, text: TextFamily::new(d), nesting: nesting_cases(d.thorough), many: many_entrypoints_cases(), vocab_len: if d.thorough { 5 } else { 4 } }
+        Families { hdr_bases, trunc_starts, mut_files, mut_starts, pair_bases, text: TextFamily::new(d), nesting: nesting_cases(d.thorough), many: many_entrypoints_cases(), limit_tfms_cell: Default::default(), limit_pls_cell: Default::default(), hdr_sweep: header_sweep_bases(), vocab_len: if d.thorough { 5 } else { 4 } }
     }
     fn list(&self, d: &Data) -> Vec<Fam> {
         vec![
@@ -672,6 +915,9 @@ impl Families {
             Fam { name: "pl-token-faults", bounds: format!("every token of {} corpus property lists (files up to {} bytes, first {} tokens): deleted, duplicated, file truncated there, a parenthesis inserted, replaced by each of {} menu items (numbers 0 255 256 2047 2048 -1 77777777777, fix_word boundaries, prefixes, keywords, parentheses), numbers replaced by the character code below the first / above the last CHARACTER, property names replaced by each of {} other property names", self.text.files.len(), if d.thorough { 25000 } else { 1500 }, if d.thorough { 1500 } else { 400 }, REPL.len(), PROPS.len()), n: self.text.len() },
             Fam { name: "pl-templates", bounds: format!("{} property list templates with every combination of hole values from lattices of {} fix_word texts, {} character code forms and {} integers (boundaries of every documented range)", TEMPLATES.len(), FIX.len(), CODES.len(), INTS.len()), n: *template_sizes().last().unwrap() },
             Fam { name: "pl-short-texts", bounds: format!("every text of <= {} tokens over a {}-token vocabulary (parentheses, property names, prefixes, numbers)", self.vocab_len, VOCAB.len()), n: vcore::strings_upto(VOCAB.len() as u64, self.vocab_len) },
+            Fam { name: "tfm-size-limits", bounds: format!("{} size-consistent synthetic fonts: one of lh, nw, nh, nd, ni, nl, nk, ne, np, bc..ec at a time at its minimum, at the largest value its index field can address, one beyond, and near the 15-bit limit (lh 2..32000 incl. 271..275, nw/nh/nd/ni 1..32000, nl 0..32700 incl. 32509..32511, nk, ne 254..257, np 253..257), all tables at their maximum with 256 characters; characters pointing at the first or at the last entry", self.limit_tfms().len()), n: self.limit_tfms().len() as u64 },
+            Fam { name: "tfm-header-bytes", bounds: "every byte of the header of two synthetic fonts (lh = 18 and lh = 20) set to every value 0..255 (checksum, design size, both string lengths and contents, seven-bit-safe byte, face byte, extra words)".into(), n: self.hdr_sweep.iter().map(|x| (x.1.len().min(24 + 80) - 24) as u64 * 256).sum() },
+            Fam { name: "pl-size-limits", bounds: format!("{} property lists at the table-size limits: LIGTABLEs of 32509/32510/32511/40000/70000 instructions, 254/255/256 VARCHAR characters, 254..256 characters with as many distinct dimensions in one NEXTLARGER chain, 253..256/1000 parameters, math-font parameter counts, HEADER D 18..254/255/256/300, 255..32510 distinct kerns, string lengths 39..41/19..21/300, every FACE code 0..256", self.limit_pls().len()), n: self.limit_pls().len() as u64 },
             Fam { name: "pl-many-entrypoints", bounds: format!("{} property lists: 254/255/256 characters each labelling its own one-instruction chain, behind 0/1/2/3/254/255/256/300 unlabelled instructions, with and without a boundary label (up to 257 entry points in need of a restart word)", self.many.len()), n: self.many.len() as u64 },
             Fam { name: "pl-nesting", bounds: format!("{} texts of 1..10^{} repeated openers / closers / nested comments (unbalanced and balanced)", self.nesting.len(), if d.thorough { 6 } else { 5 }), n: self.nesting.len() as u64 },
         ]
@@ -749,6 +995,28 @@ impl Families {
             "pl-many-entrypoints" => {
                 let (what, text) = &self.many[idx as usize];
                 check_text(w, idx, text, &|| text_case(fam, idx, text, what.clone()));
+            }
+            "pl-size-limits" => {
+                let (what, text) = &self.limit_pls()[idx as usize];
+                check_text(w, idx, text, &|| text_case(fam, idx, text, what.clone()));
+            }
+            "tfm-size-limits" => {
+                let (what, b) = &self.limit_tfms()[idx as usize];
+                check_bytes(w, idx, b, &|| bytes_case(fam, idx, b, what.clone()));
+            }
+            "tfm-header-bytes" => {
+                let mut r = idx;
+                for (name, b) in &self.hdr_sweep {
+                    let n = (b.len().min(24 + 80) - 24) as u64 * 256;
+                    if r < n {
+                        let (pos, v) = (24 + (r / 256) as usize, (r % 256) as u8);
+                        let mut m = b.clone();
+                        m[pos] = v;
+                        check_bytes(w, idx, &m, &|| bytes_case(fam, idx, &m, format!("{name}: header byte {} = {v}", pos - 24)));
+                        return;
+                    }
+                    r -= n;
+                }
             }
             _ => panic!("unknown family {fam}"),
         }
@@ -1004,6 +1272,10 @@ fn describe_case(d: &Data, f: &Families, fam: &str, idx: u64) -> Value {
         }
         "pl-many-entrypoints" => {
             let (what, text) = &f.many[idx as usize];
+            text_case(fam, idx, text, what.clone())
+        }
+        "pl-size-limits" => {
+            let (what, text) = &f.limit_pls()[idx as usize];
             text_case(fam, idx, text, what.clone())
         }
         _ => json!({"kind": "bytes", "family": fam, "index": idx, "tier": if d.thorough { "thorough" } else { "quick" }, "what": "rebuilt from family and index on replay"}),
